@@ -34,7 +34,9 @@ func init() {
 			"float32,float64,big.Int,*big.Int,big.Float,*big.Float): events into builder.BuilderEventReceiver directly and behind rules, documents through " +
 			"ce.UnmarshalFromCBEDocument/ce.UnmarshalFromCTEDocument. One evaluation = one (V, form, route, destination) tuple. Oracle: error (panic at the " +
 			"receiver level), or the stored value converted to an exact big.Rat equals V (-0 counts as 0; inf only equals inf of the same sign; NaN can only fail). " +
-			"Float destinations are judged only when the delivered event is an integer event. Non-trivial = V is not an integer in [-100,100]; distinct = distinct (V, form).",
+			"Float destinations are judged only when the delivered event is an integer event. Every CBE/CTE wire form is also delivered through a local reference: the document " +
+			"{\"a\"=&x:V \"b\"=$x} is unmarshaled into struct{A holder; B destination} for two random holder types (uint64, int64, float64, *big.Int, *big.Float, interface{}, uint8, int16) and all 16 destinations; " +
+			"B must hold exactly the number A holds, or the unmarshal must fail (float destinations judged only for integer-kind holders). Non-trivial = V is not an integer in [-100,100]; distinct = distinct (V, form).",
 		Assumptions: []string{
 			"wire forms are written by the harness's own CBE/CTE spellers; each document is first decoded by the library decoder into a recorder and must carry exactly V, otherwise the tuple is reported separately and not judged",
 			"'integer value into a float destination' is read as: the event delivered to the builder is OnInt/OnPositiveInt/OnNegativeInt/OnBigInt; float/decimal events into float32/float64 are outside the statement and counted as dontcare",
